@@ -329,6 +329,9 @@ func readJSONKV(data []byte, key *string, val *any) (n int, err error) {
 		switch index {
 		case 1:
 			// When using this for reading arrays we simply don't see this index
+			if key == nil {
+				return 0, fmt.Errorf("unexpected key field in JSON array entry")
+			}
 			l, n := plenccore.ReadVarUint(data[offset:])
 			if n <= 0 {
 				return 0, fmt.Errorf("bad length on string field")
